@@ -8,6 +8,7 @@
 //
 // ObjectPool: objects live in a per-case arena (class operator new/delete), every construction,
 // destruction, recycle call and hand-out is recorded in a registry.
+#include "known.h"
 #include <babylon/concurrent/object_pool.h>
 #include <babylon/reusable/page_allocator.h>
 
@@ -34,7 +35,9 @@ namespace {
 // concurrent/object_pool.hpp has no `return *this;` (flows off the end of a non-void function: undefined
 // behaviour; clang -O1 falls through into unrelated code, objects get destroyed twice). While this is true
 // the generator never move-ASSIGNS a pool handle (it move-constructs them and keeps them in std::list).
-constexpr bool known_deleter_move_assign_ub = true;
+// lifted when VF_ALLOW_KNOWN names "c17deleter" (the header is fixed in /repo: see known_findings.json)
+const bool known_deleter_move_assign_ub_v = true;
+#define known_deleter_move_assign_ub (!vf_allow_known("c17deleter"))
 
 constexpr size_t PAGE = 64;
 constexpr int MAXPAGES = 1024;
